@@ -106,6 +106,12 @@ def replay(rec, ctx, np, P):
         gp = P.pauli_coefficients(J.copy())
         if any(abs(complex(a) - b) > tol for a, b in zip(gp, pc)):
             fails.append(('pauli_coefficients', 'got %s want %s' % ([complex(a) for a in gp], pc)))
+        # batched over two leading axes (M != N): the same coefficients, element by element
+        stack2 = np.stack([np.stack([J, 2 * J, J.T]), np.stack([J.conj(), 1j * J, J @ J])])
+        gp2 = [np.asarray(c_) for c_ in P.pauli_coefficients(stack2.copy())]
+        want2 = [[P.pauli_coefficients(stack2[a, b].copy()) for b in range(3)] for a in range(2)]
+        if any(g.shape != (2, 3) for g in gp2) or any(abs(complex(gp2[k_][a, b]) - complex(want2[a][b][k_])) > tol * (1 + abs(complex(want2[a][b][k_]))) for k_ in range(4) for a in range(2) for b in range(3)):
+            fails.append(('pauli_coefficients:batched', 'coefficients of a (2, 3) batch of Jones matrices differ from the element-by-element coefficients (shapes %s)' % [g.shape for g in gp2]))
         rebuilt = sum(complex(c_) * P.pauli_spin_matrix(i) for i, c_ in enumerate(gp))
         if core.maxabs(rebuilt - J) > tol:
             fails.append(('pauli_spin_matrix:reconstruction', 'sum c_k sigma_k != J'))
@@ -123,22 +129,28 @@ def replay_propagation(ctx, np, P):
     """Polarised propagation = each Jones component propagated on its own, for the five supported routines."""
     from prysm import propagation as prop
     rng = np.random.RandomState(ctx.seed + 3)
-    field = rng.normal(size=(6, 5, 2, 2)) + 1j * rng.normal(size=(6, 5, 2, 2))
+    base = rng.normal(size=(6, 5, 2, 2)) + 1j * rng.normal(size=(6, 5, 2, 2))
+    # weak polarisation aberration: the four components are nearly (not exactly) the same field; and a dim field
+    near = np.repeat(base[..., :1, :1], 2, axis=-2).repeat(2, axis=-1) * (1 + 1e-7 * rng.normal(size=(6, 5, 2, 2)))
+    fields = [('generic', base), ('nearly-equal-components', near), ('dim', base * 1e-9)]
     cases = [('focus', (2,), {}), ('unfocus', (2,), {}), ('focus_fixed_sampling', (0.25, 30.0, 0.5, 3.0, 7), {}),
              ('unfocus_fixed_sampling', (3.0, 30.0, 0.5, 0.25, (6, 5)), {}), ('angular_spectrum', (0.5, 0.25, 3.0), {'Q': 1})]
     for name, args, kw in cases:
         fn = getattr(prop, name)
         try:
-            got = P.jones_adapter(fn)(field.copy(), *args, **kw)
-            ok = got.shape[-2:] == (2, 2)
-            for i in range(2):
-                for j in range(2):
-                    want = fn(field[..., i, j].copy(), *args, **kw)
-                    ok = ok and got[..., i, j].shape == want.shape and core.maxabs(got[..., i, j] - want) <= 1e-12 * (1 + core.maxabs(want))
-            scalar = P.jones_adapter(fn)(field[..., 0, 0].copy(), *args, **kw)
-            ok = ok and core.maxabs(scalar - fn(field[..., 0, 0].copy(), *args, **kw)) == 0
-            if not ok:
-                ctx.fail('Jones:propagation:%s' % name, 'polarised %s differs from propagating each Jones component' % name, {'routine': name})
+            for label, field in fields:
+                got = P.jones_adapter(fn)(field.copy(), *args, **kw)
+                ok = got.shape[-2:] == (2, 2)
+                for i in range(2):
+                    for j in range(2):
+                        want = fn(field[..., i, j].copy(), *args, **kw)
+                        # linearity: each component is propagated on its own, to rounding RELATIVE to that component
+                        ok = ok and got[..., i, j].shape == want.shape and core.maxabs(got[..., i, j] - want) <= 1e-11 * core.maxabs(want)
+                scalar = P.jones_adapter(fn)(field[..., 0, 0].copy(), *args, **kw)
+                ok = ok and core.maxabs(scalar - fn(field[..., 0, 0].copy(), *args, **kw)) == 0
+                if not ok:
+                    ctx.fail('Jones:propagation:%s:%s' % (name, label), 'polarised %s of a %s Jones field differs from propagating each Jones component' % (name, label), {'routine': name})
+                    break
         except Exception as ex:
             ctx.fail('Jones:propagation:%s:raised' % name, '%s: %s' % (type(ex).__name__, ex), {'routine': name})
         ctx.replayed(1, key=('prop', name))
